@@ -323,4 +323,10 @@ def c09hup (a : List String) (obs : String) : String × String :=
     (model, judgeUpgrade cfg (hexOr req) (f.headD "") (get "proto") (get "written") false (get "exts"))
   | _ => ("BADOP", "skip")
 
+/-- HTTPUpgrader with a connection that refuses every write: no handshake has taken place, so success is never
+    reported (the model has no failing connection: the observation is judged, not predicted). -/
+def c09hupw (_a : List String) (obs : String) : String × String :=
+  if obs.startsWith "SKIP" then (obs, "skip") else
+  (obs, if obs.startsWith "nil " then "bad:success-reported-although-the-response-could-not-be-written" else "ok")
+
 end Ws.Driver
